@@ -18,7 +18,10 @@
 (*     the next connection is initialised from fresh snapshots (Reinit)    *)
 (*                                                                         *)
 (* Ground truth (the exchange): elementary changes id 1..M, each setting   *)
-(* one level of one side (`chg`), grouped into diff events k = 1..K by the *)
+(* one level of one side - or, side "n", consuming an update id without    *)
+(* touching any level of this book: Binance does send depth updates whose  *)
+(* b and a are both empty, and they are links of the U/u/pu chain like any *)
+(* other - (`chg`), grouped into diff events k = 1..K by the *)
 (* cut points `cut` (u_k = cut[k], U_k = u_{k-1}+1, pu_k = u_{k-1}); event *)
 (* k carries, for every level touched by ids U_k..u_k, its absolute amount *)
 (* at u_k.  Truth(n) = book after changes 1..n.  A snapshot is taken at    *)
@@ -97,8 +100,9 @@ RECURSIVE TruthOf(_, _)
 TruthOf(ch, n) ==
   IF n = 0 THEN OB!MkBook(OB!EmptyMap, OB!EmptyMap, 0)
   ELSE LET b == TruthOf(ch, n - 1)  c == ch[n]
-       IN IF c.side = "b" THEN OB!MkBook(OB!ApplyLevel(b.bids, Lv(c.p, c.a)), b.asks, n)
-                          ELSE OB!MkBook(b.bids, OB!ApplyLevel(b.asks, Lv(c.p, c.a)), n)
+       IN CASE c.side = "b" -> OB!MkBook(OB!ApplyLevel(b.bids, Lv(c.p, c.a)), b.asks, n)
+            [] c.side = "a" -> OB!MkBook(b.bids, OB!ApplyLevel(b.asks, Lv(c.p, c.a)), n)
+            [] OTHER        -> OB!MkBook(b.bids, b.asks, n)          \* side "n": no level changes
 Truth(i, n) == TruthOf(chg[i], n)
 
 AmountAt(m, p) == IF p \in DOMAIN m THEN m[p] ELSE 0
